@@ -386,3 +386,380 @@ Section Fit.
     cbn [JointFit.fit_dims hd tl]. rewrite (fit_dim_start_free slicers rows i d mw (hd None st) Ht Hd).
     rewrite (IH mws (tl st) (S i)). destruct ds; reflexivity. Qed.
 End Fit.
+
+(* ------------------------------------------------------------------ value range: max / min by a fold *)
+Section Range.
+  Variable T : Type.
+  Variable lt : T -> T -> bool.
+  (* the fold of FloatBits.fmax_from / fmin_from, over any strict comparison *)
+  Fixpoint gmax_from (l : list T) (acc : T) : T :=
+    match l with [] => acc | x :: l' => gmax_from l' (if lt acc x then x else acc) end.
+  Definition gmax (d : T) (l : list T) : T := match l with [] => d | x :: l' => gmax_from l' x end.
+
+  Variable D : T -> Prop.   (* the values that occur *)
+  Hypothesis lt_irrefl : forall a, D a -> lt a a = false.
+  Hypothesis lt_trans : forall a b c, D a -> D b -> D c -> lt a b = true -> lt b c = true -> lt a c = true.
+  Hypothesis lt_tri : forall a b, D a -> D b -> lt a b = false -> lt b a = false -> a = b.
+
+  Lemma gmax_from_spec : forall l acc, D acc -> (forall x, In x l -> D x) ->
+    In (gmax_from l acc) (acc :: l) /\ forall x, In x (acc :: l) -> lt (gmax_from l acc) x = false.
+  Proof.
+    induction l as [|x l IH]; intros acc Da Dl; cbn [gmax_from].
+    - split; [left; reflexivity|]. intros x [<-|[]]. apply lt_irrefl. exact Da.
+    - assert (Dx : D x) by (apply Dl; left; reflexivity).
+      assert (Dl' : forall y, In y l -> D y) by (intros y Hy; apply Dl; right; exact Hy).
+      set (acc' := if lt acc x then x else acc).
+      assert (Da' : D acc') by (unfold acc'; destruct (lt acc x); assumption).
+      destruct (IH acc' Da' Dl') as [Hin Hmax]. set (r := gmax_from l acc') in *.
+      assert (Dr : D r). { destruct Hin as [<-|Hin]; [exact Da'|apply Dl'; exact Hin]. }
+      split.
+      + destruct Hin as [E|Hin]; [|right; right; exact Hin]. unfold acc' in E. destruct (lt acc x); [right; left|left]; exact E.
+      + assert (Ha' : lt r acc' = false) by (apply Hmax; left; reflexivity).
+        intros y [<-|[<-|Hy]]; [| |apply Hmax; right; exact Hy].
+        * (* lt r acc = false *)
+          unfold acc' in Ha'. destruct (lt acc x) eqn:E; [|exact Ha'].
+          destruct (lt r acc) eqn:E2; [|reflexivity]. rewrite (lt_trans r acc x Dr Da Dx E2 E) in Ha'. discriminate.
+        * (* lt r x = false *)
+          unfold acc' in Ha'. destruct (lt acc x) eqn:E; [exact Ha'|].
+          destruct (lt r x) eqn:E2; [|reflexivity]. exfalso.
+          destruct (lt acc r) eqn:E3.
+          -- rewrite (lt_trans acc r x Da Dr Dx E3 E2) in E. discriminate.
+          -- rewrite (lt_tri r acc Dr Da Ha' E3) in E2. congruence.
+  Qed.
+
+  (* the maximum (minimum with the flipped comparison) does not depend on the order of the data *)
+  Theorem gmax_perm d l l' : (forall x, In x l -> D x) -> Permutation l l' -> gmax d l = gmax d l'.
+  Proof.
+    intros Dl HP. assert (Dl' : forall x, In x l' -> D x) by (intros x Hx; apply Dl; apply (Permutation_in _ (Permutation_sym HP)); exact Hx).
+    destruct l as [|a l]; [apply Permutation_nil in HP; subst; reflexivity|].
+    destruct l' as [|a' l']; [apply Permutation_sym, Permutation_nil in HP; discriminate|]. cbn [gmax].
+    destruct (gmax_from_spec l a) as [Hi Hm]; [apply Dl; left; reflexivity|intros; apply Dl; right; assumption|].
+    destruct (gmax_from_spec l' a') as [Hi' Hm']; [apply Dl'; left; reflexivity|intros; apply Dl'; right; assumption|].
+    apply lt_tri.
+    - apply Dl. exact Hi.
+    - apply Dl'. exact Hi'.
+    - apply Hm. apply (Permutation_in _ (Permutation_sym HP)). exact Hi'.
+    - apply Hm'. apply (Permutation_in _ HP). exact Hi.
+  Qed.
+End Range.
+
+(* ------------------------------------------------------------------ PointsPerIntervalSlicer *)
+Section PPIPerm.
+  Variable T : Type.
+  Variable leb : T -> T -> bool.
+  Hypothesis leb_trans : forall a b c, leb a b = true -> leb b c = true -> leb a c = true.
+  Hypothesis leb_total : forall a b, leb a b = false -> leb b a = true.
+  Notation ltb := (Intervals.ltb T leb).
+
+  Lemma leb_refl a : leb a a = true.
+  Proof. destruct (leb a a) eqn:E; [reflexivity|]. rewrite (leb_total a a E) in E. discriminate. Qed.
+
+  Section Keyed.
+    Variable A : Type.
+    Variable key : A -> T.
+
+    (* strongly sorted by key *)
+    Fixpoint ssorted (l : list A) : Prop :=
+      match l with [] => True | a :: l' => (forall b, In b l' -> leb (key a) (key b) = true) /\ ssorted l' end.
+
+    Lemma sorted_ssorted l : sorted T leb (map key l) -> ssorted l.
+    Proof. induction l as [|a l IH]; intros H; [exact I|]. destruct l as [|b l]; [split; [intros ? []|exact I]|].
+      cbn [map] in H. destruct H as [Hab Hs]. specialize (IH Hs). split; [|exact IH].
+      intros x [<-|Hx]; [exact Hab|]. destruct IH as [Hb _]. exact (leb_trans _ _ _ Hab (Hb x Hx)). Qed.
+
+    Lemma ssorted_app_r l1 l2 : ssorted (l1 ++ l2) -> ssorted l2.
+    Proof. induction l1 as [|a l1 IH]; [auto|]. cbn. intros [_ H]. auto. Qed.
+    Lemma ssorted_app_l l1 l2 : ssorted (l1 ++ l2) -> ssorted l1.
+    Proof. induction l1 as [|a l1 IH]; [cbn; auto|]. cbn. intros [H1 H2]. split; [|auto]. intros b Hb. apply H1. apply in_or_app. left. exact Hb. Qed.
+
+    (* in a sorted list the elements with key <= t are a prefix *)
+    Lemma filter_prefix t l : ssorted l ->
+      filter (fun r => leb (key r) t) l = firstn (length (filter (fun r => leb (key r) t) l)) l.
+    Proof.
+      induction l as [|a l IH]; intros Hs; [reflexivity|]. destruct Hs as [Ha Hs]. cbn [filter].
+      destruct (leb (key a) t) eqn:E.
+      - cbn [length firstn]. f_equal. exact (IH Hs).
+      - assert (Z : filter (fun r => leb (key r) t) l = []).
+        { clear IH. induction l as [|b l IHl]; [reflexivity|]. cbn [filter].
+          destruct (leb (key b) t) eqn:Eb.
+          - rewrite (leb_trans _ _ _ (Ha b (or_introl eq_refl)) Eb) in E. discriminate.
+          - apply IHl; [intros x Hx; apply Ha; right; exact Hx|destruct Hs; assumption]. }
+        rewrite Z. reflexivity.
+    Qed.
+
+    Lemma ssorted_le_last l d : ssorted l -> forall a, In a l -> leb (key a) (key (last l d)) = true.
+    Proof.
+      induction l as [|x l IH]; intros Hs a Ha; [contradiction|]. destruct Hs as [Hx Hs].
+      destruct l as [|y l]; [destruct Ha as [<-|[]]; apply leb_refl|].
+      change (last (x :: y :: l) d) with (last (y :: l) d).
+      destruct Ha as [<-|Ha]; [|exact (IH Hs a Ha)].
+      apply Hx. clear. generalize y. induction l as [|z l IHl]; intros y0; [left; reflexivity|].
+      change (last (y0 :: z :: l) d) with (last (z :: l) d). right. apply IHl. Qed.
+
+    (* chunks are separated: no tie straddles a chunk boundary *)
+    Fixpoint separated (cs : list (list A)) : Prop :=
+      match cs with
+      | [] => True
+      | c0 :: rest => (forall a b, In a c0 -> In b (concat rest) -> ltb (key a) (key b) = true) /\ separated rest
+      end.
+
+    Lemma filter_all (p : A -> bool) l : (forall a, In a l -> p a = true) -> filter p l = l.
+    Proof. induction l as [|a l IH]; intros H; [reflexivity|]. cbn [filter]. rewrite (H a (or_introl eq_refl)). f_equal.
+      apply IH. intros b Hb. apply H. right. exact Hb. Qed.
+    Lemma filter_none (p : A -> bool) l : (forall a, In a l -> p a = false) -> filter p l = [].
+    Proof. induction l as [|a l IH]; intros H; [reflexivity|]. cbn [filter]. rewrite (H a (or_introl eq_refl)).
+      apply IH. intros b Hb. apply H. right. exact Hb. Qed.
+
+    (* two sorted arrangements of the same rows, cut at the same positions: chunk k holds the same rows *)
+    Lemma chunks_perm : forall cs cs',
+      map (@length A) cs = map (@length A) cs' ->
+      Permutation (concat cs) (concat cs') -> ssorted (concat cs) -> ssorted (concat cs') -> separated cs ->
+      Forall2 (@Permutation A) cs cs'.
+    Proof.
+      induction cs as [|c0 rest IH]; intros cs' HL HP Hs Hs' Hsep.
+      - destruct cs'; [constructor|discriminate].
+      - destruct cs' as [|c0' rest']; [discriminate|]. cbn [map] in HL. inversion HL as [[HL0 HLr]]. clear HL.
+        cbn [concat] in *. destruct Hsep as [Hsep0 Hsep].
+        assert (P0 : Permutation c0 c0').
+        { destruct c0 as [|a0 c0].
+          - destruct c0'; [constructor|discriminate].
+          - set (c := a0 :: c0) in *. set (t := key (last c a0)).
+            set (p := fun r => leb (key r) t).
+            assert (F : filter p (c ++ concat rest) = c).
+            { rewrite filter_app. rewrite (filter_all p c), (filter_none p (concat rest)); [apply app_nil_r| |].
+              - intros b Hb. unfold p, t. pose proof (Hsep0 (last c a0) b) as H. unfold Intervals.ltb in H.
+                apply negb_true_iff. apply H; [|exact Hb]. unfold c. clear. generalize a0 at 1 3. induction c0 as [|z l IHl]; intros y0; [left; reflexivity|].
+                change (last (y0 :: z :: l) a0) with (last (z :: l) a0). right. apply IHl.
+              - intros a Ha. unfold p, t. apply ssorted_le_last; [exact (ssorted_app_l _ _ Hs)|exact Ha]. }
+            pose proof (perm_filter p _ _ HP) as HPf. rewrite F in HPf.
+            pose proof (Permutation_length HPf) as Hlen. rewrite HL0 in Hlen.
+            unfold p in HPf, Hlen. rewrite (filter_prefix t _ Hs') in HPf. rewrite <- Hlen in HPf.
+            rewrite firstn_app, Nat.sub_diag, firstn_all, firstn_O, app_nil_r in HPf. exact HPf. }
+        constructor; [exact P0|]. apply IH; auto.
+        + apply (Permutation_app_inv_l c0). apply (perm_trans HP). apply Permutation_app_tail. apply Permutation_sym. exact P0.
+        + exact (ssorted_app_r _ _ Hs).
+        + exact (ssorted_app_r _ _ Hs').
+    Qed.
+  End Keyed.
+End PPIPerm.
+
+Section PPIMasks.
+  Variable T : Type.
+  Variable leb : T -> T -> bool.
+  Hypothesis leb_trans : forall a b c, leb a b = true -> leb b c = true -> leb a c = true.
+  Hypothesis leb_total : forall a b, leb a b = false -> leb b a = true.
+  Variable d0 : T.
+  Notation col := (col T d0).
+  Definition rowat (rows : list (list T)) (j : nat) : list T := nth j rows [].
+  Definition keyc (c : nat) (r : list T) : T := nth c r d0.
+
+  Lemma list_as_map_seq {A} (l : list A) d : map (fun j => nth j l d) (seq 0 (length l)) = l.
+  Proof. induction l as [|a l IH]; [reflexivity|]. cbn [length seq map nth]. f_equal.
+    rewrite <- seq_shift, map_map. exact IH. Qed.
+
+  Lemma sel_idc {A} (l : list A) d idc : NoDup idc -> (forall j, In j idc -> j < length l) ->
+    Permutation (selm (mask_of_idc (length l) idc) l) (map (fun j => nth j l d) idc).
+  Proof.
+    intros ND Hr. unfold mask_of_idc. rewrite <- (list_as_map_seq l d) at 2. rewrite selm_map.
+    apply Permutation_map. apply NoDup_Permutation; [apply NoDup_filter, seq_NoDup|exact ND|].
+    intros j. rewrite filter_In, in_seq, mem_spec. split; [tauto|]. intros H. split; [|exact H]. specialize (Hr j H). lia. Qed.
+
+  (* Intervals.chunks / ppi_chunks cut a list of positions; the same cuts on a list of anything *)
+  Fixpoint gchunks {A} (n : nat) (fuel : nat) (l : list A) : list (list A) :=
+    match fuel with
+    | O => []
+    | S f => match l with [] => [] | _ => firstn n l :: gchunks n f (skipn n l) end
+    end.
+  Definition gppi_chunks {A} (n_points : nat) (last_full : bool) (l : list A) : list (list A) :=
+    let len := length l in
+    let rem := len mod n_points in
+    if rem =? 0 then gchunks n_points len l
+    else if last_full then firstn rem l :: gchunks n_points len (skipn rem l)
+    else gchunks n_points len (firstn (len - rem) l) ++ [skipn (len - rem) l].
+  Lemma gchunks_nat n : forall fuel l, chunks n fuel l = gchunks n fuel l.
+  Proof. induction fuel as [|fu IH]; intros l; [reflexivity|]. destruct l; [reflexivity|]. cbn [chunks gchunks]. rewrite IH. reflexivity. Qed.
+  Lemma gppi_chunks_nat n lf l : ppi_chunks n lf l = gppi_chunks n lf l.
+  Proof. unfold ppi_chunks, gppi_chunks. rewrite !gchunks_nat. reflexivity. Qed.
+  Lemma gchunks_concat {A} n : 0 < n -> forall fuel (l : list A), length l <= fuel -> concat (gchunks n fuel l) = l.
+  Proof. intros Hn. induction fuel as [|f IH]; intros l Hl.
+    - destruct l; [reflexivity|simpl in Hl; lia].
+    - destruct l as [|x l]; [reflexivity|]. cbn [gchunks concat]. rewrite IH; [apply firstn_skipn|].
+      rewrite skipn_length. cbn [length] in *. lia. Qed.
+  Lemma gppi_chunks_concat {A} n lf (l : list A) : 0 < n -> concat (gppi_chunks n lf l) = l.
+  Proof. intros Hn. unfold gppi_chunks. destruct (length l mod n =? 0); [apply gchunks_concat; auto|]. destruct lf.
+    - cbn [concat]. rewrite gchunks_concat; auto; [apply firstn_skipn|]. rewrite skipn_length. lia.
+    - rewrite concat_app. cbn [concat]. rewrite app_nil_r, gchunks_concat; auto; [apply firstn_skipn|]. rewrite firstn_length. lia. Qed.
+
+  Lemma chunks_map {A B} (f : A -> B) n : forall fuel l, gchunks n fuel (map f l) = map (map f) (gchunks n fuel l).
+  Proof. induction fuel as [|fu IH]; intros l; [reflexivity|]. destruct l as [|a l]; [reflexivity|].
+    cbn [gchunks map]. change (f a :: map f l) with (map f (a :: l)). rewrite firstn_map, skipn_map, IH. reflexivity. Qed.
+
+  Lemma gppi_chunks_map {A B} (f : A -> B) n lf l : gppi_chunks n lf (map f l) = map (map f) (gppi_chunks n lf l).
+  Proof. unfold gppi_chunks. rewrite map_length. destruct (length l mod n =? 0); [apply chunks_map|].
+    destruct lf.
+    - cbn [map]. rewrite firstn_map, skipn_map, chunks_map. reflexivity.
+    - rewrite map_app. cbn [map]. rewrite firstn_map, skipn_map, chunks_map. reflexivity. Qed.
+
+  Lemma chunks_lengths {A B} n : forall fuel (l : list A) (l' : list B), length l = length l' ->
+    map (@length A) (gchunks n fuel l) = map (@length B) (gchunks n fuel l').
+  Proof. induction fuel as [|fu IH]; intros l l' H; [reflexivity|].
+    destruct l as [|a l], l' as [|a' l']; try discriminate; [reflexivity|]. cbn [gchunks map]. f_equal.
+    - rewrite !firstn_length. rewrite H. reflexivity.
+    - apply IH. rewrite !skipn_length. rewrite H. reflexivity. Qed.
+
+  Lemma gppi_chunks_lengths {A B} n lf (l : list A) (l' : list B) : length l = length l' ->
+    map (@length A) (gppi_chunks n lf l) = map (@length B) (gppi_chunks n lf l').
+  Proof. intros H. unfold gppi_chunks. rewrite <- H. destruct (length l mod n =? 0); [apply chunks_lengths; exact H|].
+    destruct lf.
+    - cbn [map]. f_equal; [rewrite !firstn_length, H; reflexivity|]. apply chunks_lengths. rewrite !skipn_length, H. reflexivity.
+    - rewrite !map_app. cbn [map]. f_equal; [apply chunks_lengths; rewrite !firstn_length, H; reflexivity|].
+      rewrite !skipn_length, H. reflexivity. Qed.
+
+  Lemma NoDup_app_l {A} (a b : list A) : NoDup (a ++ b) -> NoDup a.
+  Proof. induction a as [|x a IH]; [constructor|]. cbn. intros H. inversion H as [|? ? Hx Hn]; subst. constructor; [|auto].
+    intro Hc. apply Hx. apply in_or_app. left. exact Hc. Qed.
+  Lemma NoDup_concat_in {A} (cs : list (list A)) c : NoDup (concat cs) -> In c cs -> NoDup c.
+  Proof. induction cs as [|c0 cs IH]; intros ND Hc; [destruct Hc|]. cbn [concat] in ND. destruct Hc as [<-|Hc].
+    - exact (NoDup_app_l _ _ ND).
+    - apply IH; [exact (NoDup_app_r _ _ ND)|exact Hc]. Qed.
+
+  Lemma Forall2_map_transfer {A A' B B' C C'} (P : B -> B' -> Prop) (Q : C -> C' -> Prop)
+        (g : A -> B) (g' : A' -> B') (f : A -> C) (f' : A' -> C') :
+    forall l l', Forall2 P (map g l) (map g' l') ->
+    (forall a b, In a l -> In b l' -> P (g a) (g' b) -> Q (f a) (f' b)) -> Forall2 Q (map f l) (map f' l').
+  Proof. induction l as [|a l IH]; intros l' H Himp; destruct l' as [|b l']; cbn [map] in *; inversion H; subst; constructor.
+    - apply Himp; [left; reflexivity|left; reflexivity|assumption].
+    - apply IH; [assumption|]. intros a' b' Ha Hb. apply Himp; right; assumption. Qed.
+
+  Lemma nth_col i rows j : nth j (col i rows) d0 = nth i (rowat rows j) d0.
+  Proof. unfold JointFit.col, rowat. rewrite <- (map_nth (fun r => nth i r d0) rows [] j). destruct i; reflexivity. Qed.
+
+  Lemma sorted_rows_perm rows perm : Permutation perm (seq 0 (length rows)) -> Permutation (map (rowat rows) perm) rows.
+  Proof. intros H. rewrite <- (list_as_map_seq rows []) at 2. apply Permutation_map. exact H. Qed.
+
+  (* the observations of interval k (every column) are the same multiset whatever the row order, for any two
+     results of the argsort oracle, when no two observations in different chunks have tied conditioning values *)
+  Theorem ppi_intervals_perm rows rows' c n lf perm perm' :
+    0 < n -> Permutation rows rows' ->
+    Permutation perm (seq 0 (length rows)) -> sorted T leb (map (fun j => nth j (col c rows) d0) perm) ->
+    Permutation perm' (seq 0 (length rows')) -> sorted T leb (map (fun j => nth j (col c rows') d0) perm') ->
+    separated T leb (list T) (keyc c) (gppi_chunks n lf (map (rowat rows) perm)) ->
+    forall i, Forall2 (fun m m' => Permutation (selm m (col i rows)) (selm m' (col i rows')))
+                      (ppi_masks n lf perm) (ppi_masks n lf perm').
+  Proof.
+    intros Hn HP Hp Hs Hp' Hs' Hsep i.
+    assert (Lp : length perm = length rows) by (rewrite (Permutation_length Hp); apply seq_length).
+    assert (Lp' : length perm' = length rows') by (rewrite (Permutation_length Hp'); apply seq_length).
+    assert (Lr : length rows = length rows') by (apply Permutation_length; exact HP).
+    assert (SS : forall rws pm, sorted T leb (map (fun j => nth j (col c rws) d0) pm) ->
+                 ssorted T leb (list T) (keyc c) (map (rowat rws) pm)).
+    { intros rws pm H. apply (sorted_ssorted T leb leb_trans). rewrite map_map.
+      rewrite (map_ext _ (fun j => nth j (col c rws) d0)); [exact H|]. intros j. unfold keyc. symmetry. apply nth_col. }
+    pose proof (chunks_perm T leb leb_trans leb_total (list T) (keyc c)
+                  (gppi_chunks n lf (map (rowat rows) perm)) (gppi_chunks n lf (map (rowat rows') perm'))) as CP.
+    rewrite !gppi_chunks_concat in CP by exact Hn.
+    specialize (CP (gppi_chunks_lengths n lf _ _ ltac:(rewrite !map_length; congruence))).
+    specialize (CP (perm_trans (sorted_rows_perm rows perm Hp) (perm_trans HP (Permutation_sym (sorted_rows_perm rows' perm' Hp'))))).
+    specialize (CP (SS _ _ Hs) (SS _ _ Hs') Hsep).
+    rewrite !gppi_chunks_map in CP. rewrite <- !gppi_chunks_nat in CP. unfold ppi_masks.
+    apply (Forall2_map_transfer _ _ _ _ _ _ _ _ CP). intros a b Ha Hb Pab.
+    assert (CH : forall rws pm ch, Permutation pm (seq 0 (length rws)) -> In ch (ppi_chunks n lf pm) ->
+                 Permutation (selm (mask_of_idc (length pm) ch) (col i rws)) (map (fun r => nth i r d0) (map (rowat rws) ch))).
+    { intros rws pm ch Hpm Hch.
+      assert (L : length pm = length (col i rws)) by (unfold JointFit.col; rewrite map_length, (Permutation_length Hpm); apply seq_length).
+      rewrite L. apply (perm_trans (sel_idc (col i rws) d0 ch
+                 (NoDup_concat_in _ ch ltac:(rewrite ppi_chunks_concat by exact Hn; exact (Permutation_NoDup (Permutation_sym Hpm) (seq_NoDup _ _))) Hch)
+                 ltac:(intros j Hj; rewrite <- L;
+                       assert (Hin : In j pm) by (rewrite <- (ppi_chunks_concat n lf pm Hn); apply in_concat; exists ch; auto);
+                       apply (Permutation_in _ Hpm), in_seq in Hin; rewrite (Permutation_length Hpm), seq_length; lia))).
+      rewrite map_map. rewrite (map_ext _ _ (fun j => nth_col i rws j)). apply Permutation_refl. }
+    apply (perm_trans (CH rows perm a Hp Ha)). apply (perm_trans (Permutation_map _ Pab)).
+    apply Permutation_sym. exact (CH rows' perm' b Hp' Hb).
+  Qed.
+
+  (* ---- lifted to what _split_in_intervals returns for a PointsPerIntervalSlicer *)
+  Variable R : Type.
+  Definition argsort_contract (p : list nat) (x : list T) : Prop :=
+    Permutation p (seq 0 (length x)) /\ sorted T leb (map (fun j => nth j x d0) p).
+
+  Lemma count_true_selm {A} : forall (m : list bool) (l : list A), length m = length l -> count_true m = length (selm m l).
+  Proof. unfold count_true, selm. induction m as [|b m IH]; intros l H; destruct l as [|a l]; try discriminate; [reflexivity|].
+    cbn [filter combine fst]. destruct b; cbn [length map]; rewrite <- (IH l) by (cbn in H; lia); reflexivity. Qed.
+
+  Lemma Forall2_forall {A B I} (i0 : I) (P : I -> A -> B -> Prop) : forall l l',
+    (forall i, Forall2 (P i) l l') -> Forall2 (fun a b => forall i, P i a b) l l'.
+  Proof. induction l as [|a l IH]; intros l' H; destruct l' as [|b l']; try (specialize (H i0); inversion H; fail); constructor.
+    - intros i. specialize (H i). inversion H; assumption.
+    - apply IH. intros i. specialize (H i). inversion H; assumption. Qed.
+
+  Lemma Forall2_filter {A B} (Q : A -> B -> Prop) (f : A -> bool) (g : B -> bool) : forall l l',
+    Forall2 Q l l' -> (forall a b, Q a b -> f a = g b) -> Forall2 Q (filter f l) (filter g l').
+  Proof. induction 1 as [|a b l l' Hab _ IH]; intros Hfg; [constructor|]. cbn [filter]. rewrite (Hfg a b Hab).
+    destruct (g b); [constructor; auto|auto]. Qed.
+
+  Lemma Forall2_combine_same {A B C} (Q : A -> B -> Prop) (bs : list C) : forall l l',
+    Forall2 Q l l' -> Forall2 (fun x y => Q (fst x) (fst y) /\ snd x = snd y) (combine l bs) (combine l' bs).
+  Proof. intros l l' H. revert bs. induction H as [|a b l l' Hab _ IH]; intros bs; [constructor|].
+    destruct bs as [|c0 bs]; [constructor|]. cbn [combine]. constructor; [split; [exact Hab|reflexivity]|apply IH]. Qed.
+
+  Lemma Forall2_map2 {A B C D} (Q : C -> D -> Prop) (f : A -> C) (g : B -> D) : forall l l',
+    Forall2 (fun a b => Q (f a) (g b)) l l' -> Forall2 Q (map f l) (map g l').
+  Proof. induction 1; cbn [map]; constructor; auto. Qed.
+
+  Lemma Forall2_eq_map {A B C} (f : A -> C) (g : B -> C) : forall l l',
+    Forall2 (fun a b => f a = g b) l l' -> map f l = map g l'.
+  Proof. induction 1 as [|a b l l' H _ IH]; [reflexivity|]. cbn [map]. rewrite H, IH. reflexivity. Qed.
+
+  Lemma Forall2_impl2 {A B} (P Q : A -> B -> Prop) l l' : (forall a b, P a b -> Q a b) -> Forall2 P l l' -> Forall2 Q l l'.
+  Proof. intros H. induction 1; constructor; auto. Qed.
+
+  Theorem split_ppi_perm slicers argsort n lf mnp mni bnds (rf : list T -> R) rows rows' i c :
+    nth_error slicers c = Some (ppi_slicer T R argsort n lf mnp mni bnds rf) ->
+    0 < n -> Permutation rows rows' ->
+    argsort_contract (argsort (col c rows)) (col c rows) -> argsort_contract (argsort (col c rows')) (col c rows') ->
+    (forall L L', Forall2 (@Permutation T) L L' -> bnds L = bnds L') ->
+    (forall x x', Permutation x x' -> rf x = rf x') ->
+    separated T leb (list T) (keyc c) (gppi_chunks n lf (map (rowat rows) (argsort (col c rows)))) ->
+    split_equiv T R (split_in_intervals T R d0 slicers rows i c) (split_in_intervals T R d0 slicers rows' i c).
+  Proof.
+    intros Hs Hn HP [Hp Hso] [Hp' Hso'] Hb Hrf Hsep. unfold split_in_intervals. rewrite Hs. unfold ppi_slicer.
+    set (perm := argsort (col c rows)) in *. set (perm' := argsort (col c rows')) in *.
+    assert (Lc : forall k rws, length (col k rws) = length rws) by (intros; unfold JointFit.col; apply map_length).
+    rewrite Lc in Hp, Hp'.
+    assert (Lp : length perm = length rows) by (rewrite (Permutation_length Hp); apply seq_length).
+    assert (Lp' : length perm' = length rows') by (rewrite (Permutation_length Hp'); apply seq_length).
+    assert (Lr : length rows = length rows') by (apply Permutation_length; exact HP).
+    rewrite Lp, Lp', <- Lr. destruct (length rows <? n); [exact I|].
+    pose proof (Forall2_forall 0 _ _ _ (ppi_intervals_perm rows rows' c n lf perm perm' Hn HP Hp Hso Hp' Hso' Hsep)) as F.
+    cbv beta in F.
+    (* add the member counts to the relation *)
+    assert (F2 : Forall2 (fun m m' => count_true m = count_true m' /\
+                                      forall k, Permutation (selm m (col k rows)) (selm m' (col k rows')))
+                         (ppi_masks n lf perm) (ppi_masks n lf perm')).
+    { assert (ML : forall pm m, In m (ppi_masks n lf pm) -> length m = length pm).
+      { intros pm m Hm. unfold ppi_masks in Hm. apply in_map_iff in Hm. destruct Hm as [ch [<- _]].
+        unfold mask_of_idc. rewrite map_length, seq_length. reflexivity. }
+      revert F. generalize (ML perm) (ML perm'). generalize (ppi_masks n lf perm) (ppi_masks n lf perm').
+      intros l l' Hl Hl' F. induction F as [|m m' l l' Hm _ IH]; constructor.
+      - split; [|exact Hm].
+        rewrite (count_true_selm m (col 0 rows)) by (rewrite Lc, <- Lp; apply Hl; left; reflexivity).
+        rewrite (count_true_selm m' (col 0 rows')) by (rewrite Lc, <- Lp'; apply Hl'; left; reflexivity).
+        apply Permutation_length. apply Hm.
+      - apply IH; intros x Hx; [apply Hl|apply Hl']; right; exact Hx. }
+    clear F.
+    pose proof (Forall2_filter _ (fun m => Nat.min n mnp <=? count_true m) (fun m => Nat.min n mnp <=? count_true m) _ _ F2
+                  ltac:(intros a b [E _]; rewrite E; reflexivity)) as F3.
+    set (ms := filter _ (ppi_masks n lf perm)) in *. set (ms' := filter _ (ppi_masks n lf perm')) in *.
+    assert (LL : length ms = length ms') by (exact (Forall2_length F3)).
+    assert (EB : bnds (map (fun m => selm m (col c rows)) ms) = bnds (map (fun m => selm m (col c rows')) ms')).
+    { apply Hb. apply Forall2_map2. apply (Forall2_impl2 _ _ _ _ ltac:(intros a b [_ H]; exact (H c)) F3). }
+    destruct ms as [|m0 ms1] eqn:Ems, ms' as [|m0' ms1'] eqn:Ems'; try discriminate; [exact I|].
+    rewrite <- Ems, <- Ems' in *. rewrite <- LL. destruct (length ms <? mni); [exact I|]. cbn [split_equiv].
+    rewrite !map_map. cbn [r_mask r_ref r_bounds]. rewrite <- EB.
+    pose proof (Forall2_combine_same _ (bnds (map (fun m => selm m (col c rows)) ms)) _ _ F3) as F4.
+    split; [|split].
+    - apply Forall2_map2. apply (Forall2_impl2 _ _ _ _ ltac:(intros a b [[_ H] _]; exact (H i)) F4).
+    - apply Forall2_eq_map. apply (Forall2_impl2 _ _ _ _ ltac:(intros a b [[_ H] _]; exact (Hrf _ _ (H c))) F4).
+    - apply Forall2_eq_map. apply (Forall2_impl2 _ _ _ _ ltac:(intros a b [_ H]; exact H) F4).
+  Qed.
+End PPIMasks.
